@@ -240,8 +240,14 @@ def fresh_object(E, st, qualclass, name, alts=None):
                     alts2.append((o, ABSENT))
                 else:
                     alts2.append((o if isinstance(o, str) else repr(o[1]), fresh_typed(E, st, o, '%s.%s' % (name, fname))))
-            st.heap[ref.oid].fields[fname] = LazyUnion(alts2, name)
+            st.heap[ref.oid].fields[fname] = make_lazy(E, st, alts2, name)
     return ref
+
+
+def make_lazy(E, st, alts2, name):
+    sel = E.fresh(INT, 'sel_' + name)
+    st.assume(z3.And(sel >= 0, sel < len(alts2)))
+    return LazyUnion(alts2, name, sel)
 
 
 def object_alternatives(E, qualclass):
@@ -819,13 +825,26 @@ def _havoc_paths(E, st, paths):
             raise Unsupported('modifies target %s' % path)
         ref, fld = _eval_path_base(E, st, path)
         h = st.heap[ref.oid]
+        cc = None
         if typ is None:
             cc = E.registry.classes.get(getattr(h, 'ghost_id', None) or (h.cls.qualname if h.cls else ''))
             if cc is not None:
                 typ = cc.fields.get(fld) or cc.fields.get(fld + '?')
                 if typ is not None and len(split_union(typ)) != 1:
                     typ = None
-        h.fields[fld] = havoc_value(E, h.fields.get(fld), fld, st, typ)
+        cur = h.fields.get(fld)
+        if typ is None and isinstance(cur, LazyUnion):
+            # union-typed field: havoc into a fresh lazily resolved union of the same alternatives
+            alts2 = []
+            for tn, v in cur.alts:
+                alts2.append((tn, v if (v is ABSENT or v is None) else havoc_value(E, v, fld, st)))
+            h.fields[fld] = make_lazy(E, st, alts2, fld)
+        elif typ is None and cur is None and cc is not None and (cc.fields.get(fld) or cc.fields.get(fld + '?')):
+            ft = cc.fields.get(fld) or cc.fields.get(fld + '?')
+            alts2 = [((o if isinstance(o, str) else repr(o[1])), fresh_typed(E, st, o, fld)) for o in split_union(ft)]
+            h.fields[fld] = make_lazy(E, st, alts2, fld)
+        else:
+            h.fields[fld] = havoc_value(E, cur, fld, st, typ)
         st.writes.append((ref.oid, fld))
 
 
